@@ -112,7 +112,7 @@ func devMain(args []string) {
 			if j == nil {
 				continue
 			}
-			ok := (j.res.Status == "unsat" && !ob.MustSat) || (j.res.Status == "sat" && ob.MustSat)
+			ok := (j.res.Status == "unsat" && !ob.MustSat) || (j.res.Status != "unsat" && ob.MustSat)
 			if ok {
 				nOK++
 			} else {
